@@ -47,7 +47,13 @@ class Seq(list):
 
 
 class Rec(dict):
-    """dict literal with attribute access for its keys."""
+    """dict literal with attribute access for its keys (a key named like a method of dict - values, items, get - is the FIELD,
+    as in func_adl, where `p.values` on a packaged dictionary means `p['values']`)."""
+
+    def __getattribute__(self, k):
+        if not k.startswith("__") and dict.__contains__(self, k):
+            return dict.__getitem__(self, k)
+        return dict.__getattribute__(self, k)
 
     def __getattr__(self, k):
         try:
@@ -353,7 +359,7 @@ def materialise(v: Any) -> Any:
     if v is None:
         return ("n",)
     if isinstance(v, dict):
-        return ("d", tuple((k, materialise(x)) for k, x in v.items()))
+        return ("d", tuple((k, materialise(x)) for k, x in dict.items(v)))
     if dataclasses.is_dataclass(v) and not isinstance(v, type):
         if hasattr(v, "_vf_id"):
             return ("o", type(v).__name__, v._vf_id)
